@@ -29,6 +29,8 @@ def build(case):
         a['conf'].append(other)
     a['cond'] = {'nb': t(vals['cNB']), 'nooa': t(vals['cNOOA']), 'audiences': [[env.SP]]}
     a['authn'] = {'instant': env.ts(now - 10, sp), 'session_nooa': t(vals['sess'])}
+    if scn.get('stmt2', 'none') != 'none':
+        a['authn2'] = {'instant': env.ts(now - 10, sp), 'session_nooa': env.ts(now + (3 * 86400 if scn['stmt2'] == 'valid' else -3 * 86400), sp)}
     r = spc.default_response()
     r['issue_instant'] = env.ts(now + int(case['issue']), sp)
     return sb.response(r, sb.assertion(a))
@@ -56,7 +58,7 @@ def main():
         raise fw.Machinery('SPTime.tla: pipeline violates the contract: %s\n%s' % (res.violated, res.text[-2000:]))
     cases = sorted(res.cases, key=lambda c: json.dumps(c['scn'], sort_keys=True))
     if not thorough:
-        cases = [c for c in cases if chk.rng.random() < 0.25]
+        cases = [c for c in cases if c['scn']['stmt2'] != 'none' or c['scn']['conf2'] != 'none' or chk.rng.random() < 0.25]
     nacc = 0
     for case, obs, err in fw.pmap(replay, cases, init=spc.init_worker, chunk=64):
         if err:
